@@ -1,8 +1,152 @@
 import ApolloModel.Model.Proto
-open Apollo Apollo.Proto
+import ApolloModel.Model.ExecValidation
+import ApolloModel.Spec.ExecValidation
+open Apollo Apollo.Proto Apollo.ExecVal
 namespace Driver
 
+/-- text up to (not including) the first `stop`; rest after it -/
+def c17Until (stop : Char) (cs : List Char) : String × List Char :=
+  (String.ofList (cs.takeWhile (· != stop)), (cs.dropWhile (· != stop)).drop 1)
+
+mutual
+/-- prefix code written by harness/src/p17.rs `val_enc` -/
+def c17Value : Nat → List Char → Option (Value × List Char)
+  | 0, _ => none
+  | fuel + 1, cs =>
+    match cs with
+    | 'n' :: r => some (.null, r)
+    | 't' :: r => some (.bool true, r)
+    | 'F' :: r => some (.bool false, r)
+    | 'e' :: r => let (t, r) := c17Until ';' r; some (.enum t, r)
+    | 'v' :: r => let (t, r) := c17Until ';' r; some (.var t, r)
+    | 's' :: r => let (t, r) := c17Until ';' r; some (.str t, r)
+    | 'f' :: r => let (t, r) := c17Until ';' r; some (.float t, r)
+    | 'i' :: r => let (t, r) := c17Until ';' r; some (.int t, r)
+    | 'l' :: r => (c17Values fuel r).map fun (vs, r) => (.list vs, r)
+    | 'o' :: r => (c17Fields fuel r).map fun (fs, r) => (.object fs, r)
+    | _ => none
+def c17Values : Nat → List Char → Option (List Value × List Char)
+  | 0, _ => none
+  | fuel + 1, cs =>
+    match cs with
+    | '.' :: r => some ([], r)
+    | _ => do
+      let (v, r) ← c17Value fuel cs
+      let (vs, r) ← c17Values fuel r
+      pure (v :: vs, r)
+def c17Fields : Nat → List Char → Option (List (String × Value) × List Char)
+  | 0, _ => none
+  | fuel + 1, cs =>
+    match cs with
+    | '.' :: r => some ([], r)
+    | 'k' :: r => do
+      let (k, r) := c17Until ';' r
+      let (v, r) ← c17Value fuel r
+      let (fs, r) ← c17Fields fuel r
+      pure ((k, v) :: fs, r)
+    | _ => none
+end
+
+def c17ValueAll (s : String) : Option Value :=
+  match c17Value (s.length + 2) s.toList with
+  | some (v, []) => some v
+  | _ => none
+
+/-- the named types of the `c17.shape` schemas -/
+def c17ShapeKind (n : Name) : Option TypeKind :=
+  if n == "Int" || n == "String" || n == "S" then some .scalar
+  else if n == "E" then some .enum
+  else if n == "O" then some .object
+  else if n == "I" then some .interface
+  else if n == "U" then some .union
+  else none
+
+/-- `rsel_enc`: `f<key>,<name>;` (`c…` with a conditional directive), `i`/`j` inline, `s<j>;`/`t<j>;`, `.` -/
+def c17Sels : Nat → List Char → Option (Sels × List Char)
+  | 0, _ => none
+  | fuel + 1, cs =>
+    match cs with
+    | '.' :: r => some (.nil, r)
+    | c :: r =>
+      if c == 'f' || c == 'c' then do
+        let (k, r) := c17Until ',' r
+        let (n, r) := c17Until ';' r
+        let (rest, r) ← c17Sels fuel r
+        pure (.field k n (c == 'c') rest, r)
+      else if c == 'i' || c == 'j' then do
+        let (sub, r) ← c17Sels fuel r
+        let (rest, r) ← c17Sels fuel r
+        pure (.inline (c == 'j') sub rest, r)
+      else if c == 's' || c == 't' then do
+        let (t, r) := c17Until ';' r
+        let j ← t.toNat?
+        let (rest, r) ← c17Sels fuel r
+        pure (.spread j (c == 't') rest, r)
+      else none
+    | [] => none
+
+def c17SelsAll (s : String) : Option Sels :=
+  match c17Sels (s.length + 2) s.toList with
+  | some (t, []) => some t
+  | _ => none
+
+/-- `afield_enc`: `<key|parent|O or A|nameArgs|shape|` subs `>` -/
+def c17AFields : Nat → List Char → Option (List AField × List Char)
+  | 0, _ => none
+  | fuel + 1, cs =>
+    match cs with
+    | '<' :: r => do
+      let (k, r) := c17Until '|' r
+      let (p, r) := c17Until '|' r
+      let (o, r) := c17Until '|' r
+      let (na, r) := c17Until '|' r
+      let (sh, r) := c17Until '|' r
+      let (subs, r) ← c17AFields fuel r
+      match r with
+      | '>' :: r => do
+        let (rest, r) ← c17AFields fuel r
+        pure (AField.mk k p (o == "O") na sh subs :: rest, r)
+      | _ => none
+    | _ => some ([], cs)
+
+def c17AFieldsAll (s : String) : Option (List AField) :=
+  match c17AFields (s.length + 2) s.toList with
+  | some (t, []) => some t
+  | _ => none
+
+def c17NatList (s : String) : List Nat := (s.splitOn ",").filterMap String.toNat?
+
 /-- streams of property C17 are named `c17.<name>` -/
-def c17 (_stream : String) (_fs : List String) : String := "unknown-stream"
+def c17 (stream : String) (fs : List String) : String :=
+  match stream, fs with
+  | "c17.samevalue", [a, b] =>
+    match c17ValueAll (String.ofList (decodeField a)), c17ValueAll (String.ofList (decodeField b)) with
+    -- field_a is the first selection: `same_value(&other_arg.value, &arg.value)`
+    | some va, some vb => if sameValue vb va then "same" else "differ"
+    | _, _ => "bad-case"
+  | "c17.shape", [a, b] =>
+    match Ty.decode (String.ofList (decodeField a)), Ty.decode (String.ofList (decodeField b)) with
+    | some ta, some tb => if sameOutputTypeShape c17ShapeKind ta tb then "ok" else "conflict"
+    | _, _ => "bad-case"
+  | "c17.subscription", [frags, op] =>
+    let fl := (((String.ofList (decodeField frags)).splitOn "|").filter (· ≠ "")).map c17SelsAll
+    if fl.any Option.isNone then "bad-case"
+    else match c17SelsAll (String.ofList (decodeField op)) with
+      | none => "bad-case"
+      | some op => subscriptionVerdict (fl.filterMap id) op
+  | "c17.merge", [fs] =>
+    match c17AFieldsAll (String.ofList (decodeField fs)) with
+    | some fs => if xingCanMerge 128 fs then "ok" else "conflict"
+    | none => "bad-case"
+  | "c17.mergespec", [fs] =>
+    match c17AFieldsAll (String.ofList (decodeField fs)) with
+    | some fs => if Apollo.Spec.ExecVal.documentFieldsCanMerge 128 fs then "ok" else "conflict"
+    | none => "bad-case"
+  | "c17.unusedfrag", [op, g] =>
+    let opl := c17NatList (String.ofList (decodeField op))
+    let parts := (String.ofList (decodeField g)).splitOn "|"
+    let frags := (parts.take (parts.length - 1)).map c17NatList
+    toString (unusedCount frags [opl])
+  | _, _ => "bad-case"
 
 end Driver
